@@ -563,8 +563,15 @@ fn call(w: &mut World, c: Call, proto: String, out: &mut Out) -> (String, String
         _ => (vec![], None),
     };
     let is_add = add_h.is_some();
+    // the property speaks of the ADVERTISEMENT: a single-record list (fresh-record replication) may be fetched at once,
+    // a periodic multi-record list never skips the range test — however many of its records are new
+    let advert_len = match &c {
+        Call::Add { list, .. } => list.len(),
+        _ => 0,
+    };
+    let single_advert = advert_len == 1 && fresh_in.len() == 1;
     let fast = is_add
-        && fresh_in.len() == 1
+        && single_advert
         && ret.first().map(|(h, k, t)| Some(*h) == add_h && (*k, *t) == fresh_in[0]).unwrap_or(false);
     let batch: &[(u32, u32, u32)] = if fast { &ret[1..] } else { &ret[..] };
 
@@ -575,8 +582,8 @@ fn call(w: &mut World, c: Call, proto: String, out: &mut Out) -> (String, String
                 out.oracle_fail("scheduled_not_held", &hs, &format!("key {k} type {t} scheduled although held locally with that type"));
             }
         }
-        // a single fresh key is fetched at once unless that record version is already in flight
-        if fresh_in.len() == 1 {
+        // the fresh key of a single-record advertisement is fetched at once unless that record version is already in flight
+        if single_advert {
             let (k, t) = fresh_in[0];
             let inflight_before = ob.iter().any(|o| (o.k, o.t) == (k, t));
             let now_inflight = oa.iter().any(|o| (o.k, o.t) == (k, t));
@@ -587,20 +594,10 @@ fn call(w: &mut World, c: Call, proto: String, out: &mut Out) -> (String, String
         }
     }
     // range_respected: "records taken from periodic multi-record advertisements must also lie within its responsible
-    // distance" is judged on the ADVERTISEMENT's length. Known finding K-x-single-new-skips-range: when exactly one key of
-    // a multi-record list is new, the code takes the single-key fast path and skips the range test — exactly that is
-    // counted as known, everything else is a failure.
-    let advert_len = match &c {
-        Call::Add { list, .. } => list.len(),
-        _ => 0,
-    };
-    if let (Some(_), Some(r)) = (add_h, &w.range) {
-        if advert_len >= 2 && fresh_in.len() == 1 && fast && &w.d(fresh_in[0].0) > r {
-            out.count("known:K-x-single-new-skips-range");
-        }
-    }
+    // distance" is judged on the ADVERTISEMENT's length (K-x-single-new-skips-range, repaired: a multi-record list with
+    // exactly one new key used to take the single-key fast path and skip the range test).
     if let (Some(h), Some(r)) = (add_h, &w.range) {
-        if fresh_in.len() != 1 {
+        if advert_len != 1 {
             for e in ta.iter().filter(|e| e.h == h && !in_tb(e.k, e.t, e.h)) {
                 if &w.d(e.k) > r {
                     out.oracle_fail("range_respected", &hs, &format!("key {} from a multi-key list queued although out of range", e.k));
@@ -611,13 +608,16 @@ fn call(w: &mut World, c: Call, proto: String, out: &mut Out) -> (String, String
                     out.oracle_fail("range_respected", &hs, &format!("key {k} from a multi-key list scheduled although out of range"));
                 }
             }
+            if advert_len >= 2 && fresh_in.len() == 1 {
+                out.count(if &w.d(fresh_in[0].0) > r { "range:multi-advert-one-new-key:out-of-range" } else { "range:multi-advert-one-new-key:in-range" });
+            }
         }
     }
     // progress (take-up): every new in-range key of a multi-key list is queued for this holder, scheduled,
     // or already in flight afterwards — unless the holder was reported as timed out by this very call
     if let Some(h) = add_h {
         let holder_failed = evs.iter().any(|s| s.contains(&h));
-        if fresh_in.len() != 1 && !holder_failed {
+        if !single_advert && !holder_failed {
             for (k, t) in &fresh_in {
                 let in_range = w.range.as_ref().map(|r| &w.d(*k) <= r).unwrap_or(true);
                 let taken = ta.iter().any(|e| (e.k, e.t, e.h) == (*k, *t, h)) || oa.iter().any(|o| (o.k, o.t) == (*k, *t));
@@ -702,7 +702,7 @@ fn call(w: &mut World, c: Call, proto: String, out: &mut Out) -> (String, String
     if fast {
         out.count("add:fast-path");
     }
-    if is_add && fresh_in.len() == 1 && !fast {
+    if is_add && single_advert && !fast {
         out.count("add:fast-path-suppressed");
     }
     if !expect.is_empty() {
@@ -873,7 +873,7 @@ fn corpus() -> Vec<&'static str> {
         "new 2", "key 0", "key 1", "add 0 0:0", "add 1 0:0", "add 1 0:2", "put 0 0", "add 1 0:0",
         // range boundary: a multi-key list with a key exactly on, just inside and just outside the range
         "new 3", "key 0", "key 1", "key 2", "key 3", "range 0", "add 0 0:0,1:0", "add 0 2:0", "next",
-        // K-x: a multi-record list with exactly one new key, out of range: fetched at once (the witness of the known finding)
+        // K-x (repaired): a multi-record list with exactly one new key, out of range: neither fetched nor queued
         "new 6", "key 0", "key 1", "key 2", "range 0", "local 0 0", "local 1 0", "add 0 0:0,1:0,2:0",
         // timeout: holder 0 never answers; its queued entries go and it is reported once
         "new 4", "key 0", "key 1", "key 2", "key 3", "add 0 0:0", "add 0 1:0,2:0,3:0", "age 19", "next", "age 1", "add 0 1:0,2:0", "next", "age 20", "next",
